@@ -12,7 +12,7 @@ LEVEL = 'model_checking'
 RULE = ('program = chain started -> c1 -> .. -> cL (L <= 3) x position of the stop action (in `started`, in any chain handler) x '
         'action {stop(), stop(0), stop(3), stop("x"), raise SystemExit(), SystemExit(0), SystemExit(3), SystemExit("x"), KeyboardInterrupt} x '
         'next link fired before/after the action x optionally one link fired from a generator step x extra events fired around the '
-        'action; each program = 2 consecutive run() cycles on one manager plus stop() while not running; part 2: stop() from a second '
+        'action x (a further handler failing with an Exception / a BaseException that is no Exception, plain or in a generator step); each program = 2 consecutive run() cycles on one manager plus stop() while not running; part 2: stop() from a second '
         'thread under the E2 scheduler; non-trivial = every program (each exercises a stop placement); distinct = distinct program/schedule')
 ASSUMPTIONS = [
     'an exit code is any value other than None: stop(0) / SystemExit(0) must reach the caller of run() as SystemExit(0)',
@@ -58,6 +58,18 @@ def programs(tier):
                     yield L, L, act, 'fire-then-stop', None, ('genchain', K, Y)
 
 
+    # a handler that fails while the loop runs: an Exception or a BaseException that is no Exception (plain handler or a later
+    # step of a generator handler) - the failure is reported, the loop goes on, `stopped` is dispatched and run() ends as the
+    # stop action says
+    for L in (0, 1, 2):
+        for pos in range(0, L + 1):
+            for act in (('mstop', None), ('mstop', 3), ('sysexit', None), ('sysexit', 3), ('kbd',)):
+                for kind in ('raise', 'raiseb'):
+                    for where in ('plain', 'gen'):
+                        for order in ('fire-then-stop', 'stop-then-fire'):
+                            yield L, pos, act, order, None, ('failing', kind, where)
+
+
 def build(program):
     L, pos, act, order, gen, extra = program
     handlers = []
@@ -66,7 +78,7 @@ def build(program):
         steps = []
         nxt = [('fire', 'c%d' % (i + 1))] if i < L else []
         ex = [('fire', 'x')] if extra else []
-        ex = [('fire', 'x')] if extra is True else []
+        ex = [('fire', 'x')] if extra is True or (isinstance(extra, tuple) and extra[0] == 'failing') else []
         if i == pos:
             if isinstance(extra, tuple) and extra[0] == 'child-stop':
                 body = [('cstop', extra[1])] + nxt + [('fire', 'x'), ('cstop', extra[1]), act]
@@ -83,7 +95,10 @@ def build(program):
         else:
             steps = body
         handlers.append(('h%d' % i, typ, 2, steps))
-    handlers.append(('hx', 'x', 2, [('ret', 1)]))
+    if isinstance(extra, tuple) and extra[0] == 'failing':
+        handlers.append(('hx', 'x', 2, ('gen', [('y', None), (extra[1],)]) if extra[2] == 'gen' else [(extra[1],)]))
+    else:
+        handlers.append(('hx', 'x', 2, [('ret', 1)]))
     if extra == 'stopped-fires':
         handlers.append(('hs', 'stopped', 2, [('fire', 'x')]))
     elif isinstance(extra, tuple) and extra[0] == 'genchain':
@@ -107,6 +122,7 @@ def execute(program, lazy=False):
     w.root.stop()          # stop() on a manager that is not running
     w.notrunning = [(pre, (len(w.log), len(w.root)))]
     w.stray = []
+    w.escaped = []
     stray_stop(w, 7)       # ... also with an exit code: no effect now and none on the next run()
     marks = []
     for cycle in range(2):
@@ -125,7 +141,10 @@ def execute(program, lazy=False):
         w.root.stop()
         w.notrunning.append((pre, (len(w.log), len(w.root))))
         for _ in range(3):
-            w.root.tick()
+            try:
+                w.root.tick()
+            except BaseException as exc:  # noqa: BLE001 - a handler's failure that came out of tick()
+                w.escaped.append('%s(%s) came out of tick() on the stopped manager' % (type(exc).__name__, exc))
         stray_stop(w, 9)
     return w, marks
 
@@ -149,6 +168,8 @@ def judge(program, w, marks):
     for code, res, pre, post in w.stray:
         if res != 'return' or pre != post:
             bad.append(('stop-not-running', 'stop(%r) on a stopped manager: %s, log/queue %r -> %r' % (code, res, pre, post)))
+    for text in w.escaped:
+        bad.append(('failure-escaped', text))
     for cyc, (a, b, res, qlen, by_driver) in enumerate(marks):
         seg = w.log[a:b]
         tag = 'cycle%d:' % (cyc + 1)
